@@ -28,6 +28,7 @@ for m in sorted(glob.glob(os.path.join(VERIF, "seeded", pid + "-*", "meta.json")
         continue
     s = json.load(open(m)).get("summary", "")
     taken.append("  - " + s[:420].replace("\n", " "))
+flavour = os.environ.get("FLAVOUR", "")
 avoid = ""
 if taken:
     avoid = "\nChanges ALREADY TAKEN by earlier rounds for this property (pick something DIFFERENT: another site, another mechanism, another part of the property's statement):\n" + "\n".join(taken) + "\n"
@@ -40,7 +41,7 @@ The property that should hold for this code base:
 
 ---
 {text}---
-{avoid}
+{avoid}{("Preference for this round: " + flavour + chr(10)) if flavour else ""}
 Your task: make ONE small source change (a few lines, in non-test source files under contracts/ or packages/) that BREAKS this property, such that
   1. the workspace still compiles, and
   2. the ENTIRE existing test suite still passes unedited:  cd {wt} && CARGO_NET_OFFLINE=true cargo test --workspace --offline 2>&1 | grep -E "^test result|FAILED|failed"   (all 410 tests must pass; you must not edit, delete or ignore any existing test), and
